@@ -30,7 +30,9 @@ def file_obj(E, st, fl, i):
         "__len__": mk_int(z3.Select(fl.nerr, i)),
         "status": SKind(z3.If(z3.Select(fl.haserr, i), KINDS.code("Error"), KINDS.code("OK"))),
     }))
-    return st.alloc(ObjCell("FileOfList", {"errors": errs, "path": SStr(z3.Select(fl.path, i)), "index": mk_int(i)}))
+    return st.alloc(ObjCell("FileOfList", {"errors": errs, "path": SStr(z3.Select(fl.path, i)), "index": mk_int(i),
+                                           "type": Opaque("file.type"), "source": Opaque("file.source"),
+                                           "basename": Opaque("file.basename"), "name": Opaque("file.name")}))
 
 
 def seq_files(E, s, ref):
